@@ -148,6 +148,7 @@ def c11(run):
     run.format_theorems(Q(run, 1, 6))
     run.trace("cut", Q(run, 1, 24), chunk=4000)
     run.trace("prim-cut", Q(run, 1, 8), seed_off=100)
+    run.trace("prim-sweep", Q(run, 1, 2), seed_off=200, chunk=600)
     return run.finish(RULE_TRACE + "Every cut position 0..len-1 of each encoding (all cuts within the first/last 150 bytes plus 100 random ones for encodings over 400 bytes).")
 
 
